@@ -31,6 +31,10 @@ pub enum FaultKind {
     SyntheticGenesis,
     /// block h >= 1 replaced by a copy of the coin's real genesis block
     GenesisCopy,
+    /// the stored block h-1 (h >= 2) gets another nonce - its header no longer hashes to the indexed hash of height
+    /// h-1 - and the prev field of the stored block h is pointed at that new header hash: the two stored blocks link
+    /// to each other, but block h's prev-hash is not the INDEXED hash of the preceding height
+    Relinked,
 }
 
 #[derive(Clone, Debug, Serialize, Deserialize)]
@@ -79,7 +83,7 @@ fn chain_cfg(tier: Tier, faults: bool) -> gen::ChainCfg {
 
 pub fn strategy(tier: Tier, faults: bool) -> BS<Case> {
     let fault = if faults {
-        (prop_oneof![4 => Just(FaultKind::TxBit), 3 => Just(FaultKind::MerkleBit), 3 => Just(FaultKind::PrevBit), 2 => Just(FaultKind::ForeignBlock), 1 => Just(FaultKind::WrongGenesis), 1 => Just(FaultKind::SyntheticGenesis), 1 => Just(FaultKind::GenesisCopy)], any::<u16>(), any::<u32>()).prop_map(|(kind, h, bit)| Some(Fault { kind, h, bit })).boxed()
+        (prop_oneof![4 => Just(FaultKind::TxBit), 3 => Just(FaultKind::MerkleBit), 3 => Just(FaultKind::PrevBit), 2 => Just(FaultKind::ForeignBlock), 2 => Just(FaultKind::Relinked), 1 => Just(FaultKind::WrongGenesis), 1 => Just(FaultKind::SyntheticGenesis), 1 => Just(FaultKind::GenesisCopy)], any::<u16>(), any::<u32>()).prop_map(|(kind, h, bit)| Some(Fault { kind, h, bit })).boxed()
     } else {
         Just(None).boxed()
     };
@@ -161,9 +165,22 @@ pub fn check(c: &Case) -> Verdict {
                 }
                 1 + mono(f.h, n - 1)
             }
+            FaultKind::Relinked => {
+                if n < 3 {
+                    return Verdict::Pass(Pass::default());
+                }
+                2 + mono(f.h, n - 2)
+            }
             _ => mono(f.h, n),
         };
         fault_h = Some(built.blocks[hi].0);
+        let mut relinked_prev: Option<[u8; 32]> = None;
+        if f.kind == FaultKind::Relinked {
+            if let Seg::Blk { bytes, .. } = &mut plan.files[0].segs[hi - 1] {
+                bytes[76] ^= 0x01 | (f.bit as u8 & 0xfe);
+                relinked_prev = Some(vpmodel::hashes::sha256d(&bytes[..80]));
+            }
+        }
         if let Seg::Blk { bytes, .. } = &mut plan.files[0].segs[hi] {
             match f.kind {
                 FaultKind::MerkleBit => {
@@ -194,6 +211,12 @@ pub fn check(c: &Case) -> Verdict {
                     }
                     None => return Verdict::Pass(Pass::default()),
                 },
+                FaultKind::Relinked => {
+                    if let Some(p) = relinked_prev {
+                        bytes[4..36].copy_from_slice(&p);
+                    }
+                    desc = "stored predecessor re-mined (other nonce) and this block's prev field pointed at it".into();
+                }
                 FaultKind::WrongGenesis => desc = "another coin's genesis block at height 0".into(),
                 FaultKind::SyntheticGenesis => desc = "synthetic block at height 0".into(),
             }
